@@ -484,7 +484,8 @@ theorem auxiliary_eq (as : List Attribute) (b : Bool) (ad : List String) (ms : L
     n03_attrLog as = (as.filter fun a => a.isPublic && !isTypeVarType a.type).map (fun a => ("attr", a.id)) ∧
     n03_methLog b ad ms = (ms.filter fun m => !methodSkipped m b ad).map
       (fun m => (if m.isProperty then "prop" else "fun", m.id)) ∧
-    n03_ownNames c = unionSet (n03_attrNames c.attributes) (n03_methNames false [] c.methods) ∧
+    n03_ownNames c = unionSet (unionSet (n03_attrNames c.attributes) (n03_methNames false [] c.methods))
+      ((c.classes.filter (·.isPublic)).map (·.name)) ∧
     n03_privSuper s = isInternal (lastD "" (splitDot s)) :=
   ⟨rfl, rfl, rfl, rfl⟩
 
